@@ -307,6 +307,9 @@ class Ctx:
         s.set("timeout", self.feas_timeout_ms)
         s.add(*self.pc)
         s.add(extra)
+        ax = getattr(self, "extra_axioms", None)
+        if ax is not None:
+            s.add(*ax(list(self.pc) + [extra]))
         self.solver_calls += 1
         r = s.check()
         return r != z3.unsat
